@@ -21,6 +21,8 @@ CTXA_MACROS = [
     ('mend', ['m', 's']),               # optional marker as the LAST declared argument
     ('mtx', [('m', 'text'), 'm']),      # text-mode argument followed by an ordinary one
     ('mmx', [('m', 'math'), 'm']),      # math-mode argument followed by an ordinary one
+    ('mch', [('m', 'chain-text')]),    # text-mode argument declared through a chain of deltas (mode switch first)
+    ('lvi', 'legacy-verb'),             # pylatexenc-2 style \verb-like macro with a leading optional argument
     ('setx', 'after-delta'),            # no arguments; its spec returns a parsing-state delta for what follows
 ]
 CTXA_ENVS = [
@@ -43,6 +45,11 @@ def ctx_a(with_unknown=True):
 
     def _arg(a):
         if isinstance(a, tuple):
+            if a[1] == 'chain-text':
+                from pylatexenc.latexnodes import ParsingStateDeltaChained, ParsingStateDelta
+                delta = ParsingStateDeltaChained([ParsingStateDeltaLeaveMathMode(),
+                                                  ParsingStateDelta(set_attributes=dict(forbidden_characters='\x7f'))])
+                return LatexArgumentSpec(a[0], parsing_state_delta=delta)
             delta = ParsingStateDeltaLeaveMathMode() if a[1] == 'text' else ParsingStateDeltaEnterMathMode()
             return LatexArgumentSpec(a[0], parsing_state_delta=delta)
         return a
@@ -54,7 +61,10 @@ def ctx_a(with_unknown=True):
         return ParsingStateDelta(set_attributes=dict(forbidden_characters='\x7f'))
     macros = []
     for (n, a) in CTXA_MACROS:
-        if a == 'after-delta':
+        if a == 'legacy-verb':
+            macros.append(macrospec.MacroSpec(n, args_parser=macrospec.VerbatimArgsParser(
+                verbatim_arg_type='verb-macro', verbatim_argspec='[')))
+        elif a == 'after-delta':
             macros.append(macrospec.MacroSpec(n, arguments_spec_list=[], make_after_parsing_state_delta=_after))
         else:
             macros.append(macrospec.MacroSpec(n, arguments_spec_list=[_arg(x) for x in a]))
